@@ -116,15 +116,7 @@ func (c *Container) CloseWithErrors(h *Handler) (err error) {
 }
 
 func (c *Container) CloseAll() error {
-	if vhook.Enabled {
-		for _, k := range vhook.SortStrings(c.Keys()) {
-			if err := c.Close(c.m[k]); err != nil {
-				return err
-			}
-		}
-		return nil
-	}
-	for k := range c.m {
+	for _, k := range vhook.SortStrings(c.Keys()) {
 		if err := c.Close(c.m[k]); err != nil {
 			return err
 		}
@@ -134,15 +126,7 @@ func (c *Container) CloseAll() error {
 
 func (c *Container) CloseAllWithErrors() error {
 	var errs []error
-	if vhook.Enabled {
-		for _, k := range vhook.SortStrings(c.Keys()) {
-			if err := c.CloseWithErrors(c.m[k]); err != nil {
-				errs = append(errs, err.(*ForcedUnlockError).Errors...)
-			}
-		}
-		return NewForcedUnlockError(errs)
-	}
-	for k := range c.m {
+	for _, k := range vhook.SortStrings(c.Keys()) {
 		if err := c.CloseWithErrors(c.m[k]); err != nil {
 			errs = append(errs, err.(*ForcedUnlockError).Errors...)
 		}
